@@ -235,4 +235,36 @@ pub fn run(rep: &mut Rep) {
         rep.count_max("max_param_list_len", len as u64);
         judge_lists(rep, &ctx, Some(&list), Some(&flist), "random");
     }
+    // (d) the same kinds of lists inside *varying* host messages: every other member regenerated
+    //     (boundary and random values, e.g. enterpriseAttestation 1 and 2, either options), optional
+    //     members dropped at random
+    let n = rep.n(3000, 1_000_000);
+    for _ in 0..n * rep.nshards {
+        case += 1;
+        if !rep.mine(case) {
+            continue;
+        }
+        let mut rng = Rng::derive(seed, "c14d", case);
+        let (mut host_mc, mut host_ga) = {
+            let mut g = G::new(&mut rng);
+            g.top_mask = Some(u64::MAX);
+            g.nested = Nested::Random;
+            g.small = true;
+            (gen_message(&ctx.mc, &mut g), gen_message(&ctx.ga, &mut g))
+        };
+        for (host, keep) in [(&mut host_mc, &[1u64, 2, 3, 4, 0x0b][..]), (&mut host_ga, &[1u64, 2, 0x0b][..])] {
+            if let V::M(m) = host {
+                m.retain(|(k, _)| matches!(k, V::U(x) if keep.contains(x)) || rng.below(3) != 0);
+            }
+        }
+        let len = rng.usize(9);
+        let list: Vec<V> = (0..len).map(|_| { let l = rng.below(4); letter(&mut rng, l) }).collect();
+        let fl = rng.usize(6);
+        let flist: Vec<V> = (0..fl).map(|_| { let l = rng.below(4); fletter(&mut rng, l) }).collect();
+        if !rep.begin("varying-host") {
+            continue;
+        }
+        let ctx2 = Ctx { mc: ctx.mc.clone(), ga: ctx.ga.clone(), mc_base: host_mc, ga_base: host_ga };
+        judge_lists(rep, &ctx2, Some(&list), Some(&flist), "varying-host");
+    }
 }
